@@ -21,11 +21,13 @@ func main() {
 		vlib.Group{Name: "dualcmplx-ring", Gen: genDualcmplxRing},
 		vlib.Group{Name: "dual-func", Gen: genDualFuncs},
 		vlib.Group{Name: "hyperdual-func", Gen: genHyperdualFuncs},
+		vlib.Group{Name: "dual-compose", Gen: genDualCompose},
+		vlib.Group{Name: "hyperdual-compose", Gen: genHyperdualCompose},
 		vlib.Group{Name: "quat-func", Gen: genQuatFuncs},
 		vlib.Group{Name: "dualquat-func", Gen: genDualquatFuncs},
 		vlib.Group{Name: "dualcmplx-func", Gen: genDualcmplxFuncs},
 		vlib.Group{Name: "interp", Gen: genInterp},
-		vlib.Group{Name: "interp-monotone", Gen: genInterpMonotone},
+		vlib.Group{Name: "interp-all-y", Gen: genInterpAllY},
 		vlib.Group{Name: "interp-bad-input", Gen: genInterpBadInput},
 	)
 }
